@@ -542,3 +542,124 @@ func checkNoopDeletes(c *Ctx, rule string, pk *packages.Package) {
 		})
 	}
 }
+
+var rxShortDecl = regexp.MustCompile(`(?m)^[ \t]*((?:⟦[^⟧\n]*⟧|[A-Za-z_]\w*)+)[ \t]*:=`)
+
+// checkDeclaredUsed: Go refuses a local that is declared and not used. A local that a template
+// declares with `:=` under conditions D, and that no other template mentions, is used under
+// conditions whose disjunction D implies (small-model evaluation over the atoms involved):
+// a guard narrowed on the use alone (`if gt0 .MinItems` under a declaration that still says
+// `if or .MinItems .MaxItems`) leaves the declaration without a use for some schemas.
+func checkDeclaredUsed(c *Ctx, rule string, ev *tmpl.Evaluator) {
+	c.Rule(rule, "a local declared with := under template conditions, and mentioned by no other template, is used whenever its declaration is emitted", 5)
+	lin := map[string]*tmpl.Linear{}
+	for _, name := range ev.F.Names() {
+		t := ev.F.Trees[name]
+		if t == nil || t.Tree == nil || t.Tree.Root == nil || strings.HasPrefix(t.Asset, "contrib/") || strings.Contains(t.File, "/markdown/") {
+			continue
+		}
+		lin[name] = tmpl.Linearise(t)
+	}
+	scopeOf := func(gs []tmpl.Guard) string {
+		var sc []string
+		for _, g := range gs {
+			if g.Kind == "range" || g.Kind == "with" || g.Kind == "else-with" {
+				sc = append(sc, g.Kind+" "+g.Pipe)
+			}
+		}
+		return strings.Join(sc, " › ")
+	}
+	names := make([]string, 0, len(lin))
+	for n := range lin {
+		names = append(names, n)
+	}
+	sort.Strings(names)
+	for _, tn := range names {
+		l := lin[tn]
+		seen := map[string]bool{}
+		for _, m := range rxShortDecl.FindAllStringSubmatchIndex(l.Text, -1) {
+			name := l.Text[m[2]:m[3]]
+			if name == "_" || name == "err" || name == "ok" || seen[name] || !strings.Contains(name, "⟦") {
+				continue // plain names are covered by the use ⇒ declaration rule; composed names are the size / index variables
+			}
+			seen[name] = true
+			gs := l.GuardsAt(m[2])
+			if len(gs) == 0 {
+				continue
+			}
+			elsewhere := false
+			for _, on := range names {
+				if on != tn && strings.Contains(lin[on].Text, name) {
+					elsewhere = true
+				}
+			}
+			if elsewhere {
+				continue
+			}
+			d := tmpl.StackCond(gs)
+			if len(d.Args) == 0 {
+				continue
+			}
+			atoms := map[string]bool{}
+			d.Atoms(atoms)
+			var uses []*tmpl.Cond
+			complete := true
+			for off := 0; ; {
+				i := strings.Index(l.Text[off:], name)
+				if i < 0 {
+					break
+				}
+				at := off + i
+				off = at + len(name)
+				if at == m[2] {
+					continue
+				}
+				rest := strings.TrimLeft(l.Text[off:], " \t")
+				if strings.HasPrefix(rest, ":=") {
+					complete = false // declared again: which uses belong to which declaration is not decided here
+					continue
+				}
+				if off < len(l.Text) && (l.Text[off] == '_' || (l.Text[off] >= 'a' && l.Text[off] <= 'z') || (l.Text[off] >= 'A' && l.Text[off] <= 'Z') || (l.Text[off] >= '0' && l.Text[off] <= '9')) {
+					continue // a longer name
+				}
+				ug := l.GuardsAt(at)
+				if scopeOf(ug) != scopeOf(gs) {
+					complete = false
+					continue
+				}
+				uc := tmpl.StackCond(ug)
+				uc.Atoms(atoms)
+				uses = append(uses, uc)
+			}
+			keys := sortedKeys(atoms)
+			if !complete || len(keys) > 14 {
+				continue
+			}
+			bad := ""
+			for mask := 0; mask < 1<<len(keys) && bad == ""; mask++ {
+				env := map[string]bool{}
+				for i, k := range keys {
+					env[k] = mask&(1<<i) != 0
+				}
+				if !d.Eval(env) {
+					continue
+				}
+				used := false
+				for _, u := range uses {
+					used = used || u.Eval(env)
+				}
+				if !used {
+					var on []string
+					for _, k := range keys {
+						if env[k] {
+							on = append(on, k)
+						}
+					}
+					bad = strings.Join(on, ", ")
+				}
+			}
+			c.Check(bad == "", rule, fmt.Sprintf("%s › %s › `%s` is used whenever it is declared", l.Tree.Asset, tn, strings.NewReplacer("⟦", "{{", "⟧", "}}").Replace(name)), l.Tree.PosStr(l.PosAt(m[2])), "declaration implies a use",
+				fmt.Sprintf("the local is declared under template conditions, and with only {%s} true the declaration is emitted while none of its uses is: the generated file does not compile (declared and not used)", bad))
+		}
+	}
+}
